@@ -316,9 +316,33 @@ def proof_stage(pid, pinned):
         return len(pinned), 0, problems
     ob, di, pr = check_property_file(pid, pinned)
     problems += pr
+    tier, _ = tier_and_seed(sys.argv)
+    if tier == "thorough" and not problems:
+        # the independent checker re-checks the compiled property file and everything it depends on
+        problems += coqchk(pid)
     if problems:
         di = 0
     return ob, di, problems
+
+
+def coqchk(pid):
+    """coqchk -o on Properties/<pid>.vo: every dependency re-checked, the axiom list must be empty"""
+    try:
+        r = subprocess.run(["timeout", "1800", "coqchk", "-silent", "-o", "-Q", "theories", "Incr", "Incr.Properties." + pid],
+                           cwd=COQ, capture_output=True, text=True)
+    except OSError as e:
+        return [f"coqchk could not run: {e}"]
+    out = r.stdout + r.stderr
+    if r.returncode != 0:
+        return ["coqchk failed: " + out[-1500:]]
+    m = re.search(r"\* Axioms:\s*(.*?)\n\s*\n", out, re.S)
+    if not m or m.group(1).strip() != "<none>":
+        return ["coqchk reports axioms: " + (m.group(1).strip()[:500] if m else out[-500:])]
+    for label in ("relying on type-in-type", "relying on unsafe (co)fixpoints", "whose positivity is assumed"):
+        mm = re.search(re.escape(label) + r":\s*(.*?)\n", out)
+        if mm and mm.group(1).strip() != "<none>":
+            return [f"coqchk: {label}: {mm.group(1).strip()[:300]}"]
+    return []
 
 
 def pinned_theorems(pid):
